@@ -533,6 +533,162 @@ let orc_problem args impl =
   | Some out -> [("safe", safe_b out); ("neutral", neutral_b out); ("equals_model", op_problem args = impl)]
   | None -> []
 
+(* ---------------- network: jtp / client against the simulator (C02-C05, C09) ---------------- *)
+let str_of_text t = String.concat "," (List.map (fun c -> string_of_int (int_of_n c)) t)
+let not_found_str = "HTTP/1.0 404 Not Found\r\nContent-Type: text/plain\r\n\r\nnot found"
+let not_found_bytes = List.map (fun c -> n_of_int (Char.code c)) (List.init (String.length not_found_str) (String.get not_found_str))
+let cold_outs : int list list ref = ref []
+type netop = NFetch of int | NUnknown of jv * int
+type netcase = { cap : int; universe : n list array; world : (int * n list * int) list; modes : int list; ops : netop list }
+let take_netcase args =
+  let (cap, r) = take1 args in
+  let (nu, r) = take1 r in
+  let (us, r) = take_texts nu r in
+  let (nw, r) = take1 r in
+  let rec ws n r = if n = 0 then ([], r) else
+      let (ui, r) = take1 r in let (resp, r) = take_text r in let (fin, r) = take1 r in
+      let (rest, r) = ws (n - 1) r in ((ui, resp, fin) :: rest, r) in
+  let (world, r) = ws nw r in
+  let (modes, r) = take_n 6 r in
+  let (nops, r) = take1 r in
+  let rec ops n r = if n = 0 then ([], r) else
+      let (k, r) = take1 r in
+      let (o, r) = (if k = 0 then let (ui, r) = take1 r in (NFetch ui, r)
+                    else let (v, r) = take_jv r in let (si, r) = take1 r in (NUnknown (v, si), r)) in
+      let (rest, r) = ops (n - 1) r in (o :: rest, r) in
+  let (ops, _) = ops nops r in
+  { cap; universe = Array.of_list us; world; modes; ops }
+(* lib: per universe string: parsed? canonical https host ; per absolute base: per string resolved ; per world entry: body class *)
+type urlinfo = { canon : n list; https : bool; host : n list }
+let take_netlib nc lib =
+  let nu = Array.length nc.universe in
+  let info = Array.make nu None in
+  let r = ref lib in
+  for i = 0 to nu - 1 do
+    let (ok, r1) = take1 !r in
+    if ok = 0 then r := r1 else begin
+      let (c, r2) = take_text r1 in let (h, r3) = take1 r2 in let (ho, r4) = take_text r3 in
+      info.(i) <- Some { canon = c; https = (h <> 0); host = ho }; r := r4 end
+  done;
+  let res = Array.make_matrix nu nu None in
+  for i = 0 to nu - 1 do
+    let (abs, r1) = take1 !r in r := r1;
+    if abs <> 0 then
+      for j = 0 to nu - 1 do
+        let (ok, r1) = take1 !r in r := r1;
+        if ok <> 0 then begin let (t, r2) = take_text !r in res.(i).(j) <- Some t; r := r2 end
+      done
+  done;
+  let bodies = List.map (fun _ ->
+      let (k, r1) = take1 !r in r := r1;
+      match k with
+      | 0 -> let (v, r2) = take_jv !r in r := r2; (match v with JObj kvs -> BObj kvs | _ -> BBad)
+      | 1 -> BNull
+      | _ -> BBad) nc.world in
+  (info, res, bodies)
+let run_net args lib =
+  let nc = take_netcase args in
+  let (info, res, bodies) = take_netlib nc lib in
+  let nu = Array.length nc.universe in
+  (* canonical string -> index of some universe string with that canonical form *)
+  let find_canon c = let rec go i = if i >= nu then None else (match info.(i) with Some x when x.canon = c -> Some i | _ -> go (i + 1)) in go 0 in
+  let find_raw s = let rec go i = if i >= nu then None else if nc.universe.(i) = s then Some i else go (i + 1) in go 0 in
+  let info_of c = match find_canon c with Some i -> info.(i) | None -> None in
+  let is_https c = match info_of c with Some x -> x.https | None -> false in
+  let host_of c = match info_of c with Some x -> x.host | None -> [] in
+  let host_index c =
+    (* simulator hosts are 127.0.0.(k+1):port *)
+    let h = host_of c in
+    match h with
+    | a :: b :: c1 :: d :: e :: f :: g :: h8 :: k :: _ when List.map int_of_n [a;b;c1;d;e;f;g;h8] = [49;50;55;46;48;46;48;46] -> int_of_n k - 49
+    | _ -> -1 in
+  let world_tbl = List.map2 (fun (ui, resp, fin) body ->
+      ((match info.(ui) with Some x -> x.canon | None -> []), (resp, body))) nc.world bodies in
+  let w c =
+    let hi = host_index c in
+    let dial = hi >= 0 && hi < 6 && List.nth nc.modes hi = 0 in
+    match List.assoc_opt c world_tbl with
+    | Some (resp, body) -> { e_dial = dial; e_bytes = resp; e_body = body }
+    | None -> { e_dial = dial; e_bytes = not_found_bytes; e_body = BBad } in
+  let resolve base v =
+    match find_canon base, find_raw v with
+    | Some i, Some j -> res.(i).(j)
+    | _ -> None in
+  let parse_ref source s =
+    match find_raw s with
+    | None -> None
+    | Some j -> (match source with
+        | None -> (match info.(j) with Some x -> Some x.canon | None -> None)
+        | Some b -> (match find_canon b with Some i -> res.(i).(j) | None -> None)) in
+  let url_parse s = match find_raw s with Some j -> (match info.(j) with Some x -> Some x.canon | None -> None) | None -> None in
+  let cap = nat_of_int nc.cap in
+  let cache = ref [] in
+  let log = ref [] in
+  let out = ref [] in
+  let cold = ref [] in
+  List.iter (fun op ->
+      match op with
+      | NFetch ui ->
+        (match info.(ui) with
+         | None -> out := !out @ [[2]]; cold := !cold @ [[2]]
+         | Some x ->
+           let ((o, c'), l) = fetch_url w is_https resolve cap !cache x.canon in
+           cache := c'; log := !log @ l;
+           let ((oc, _), _) = fetch_url w is_https resolve O [] x.canon in
+           cold := !cold @ [(match oc with ODoc (d, src) -> 0 :: put_jv (JObj d) @ put_text src | OErr _ -> [1])];
+           (match o with
+            | ODoc (d, src) -> out := !out @ [0 :: put_jv (JObj d) @ put_text src]
+            | OErr _ -> out := !out @ [[1]]))
+      | NUnknown (v, si) ->
+        let source = if si < 0 then None else (match info.(si) with Some x -> Some x.canon | None -> None) in
+        let ((rs, c'), l) = fetch_unknown w is_https resolve cap parse_ref url_parse host_of !cache v source in
+        cache := c'; log := !log @ l;
+        (match rs with
+         | FUOk (o, id) -> out := !out @ [0 :: put_jv (JObj o) @ (match id with None -> [0] | Some i -> 1 :: put_text i)]
+         | FUErr _ -> out := !out @ [[1]]);
+        cold := !cold @ [[-1]])
+    nc.ops;
+  cold_outs := !cold;
+  (nc, !out, !log)
+let op_net args lib =
+  let (_, outs, log) = run_net args lib in
+  List.concat outs @ (List.length log :: List.concat_map put_text log) @ [0]
+(* project the implementation's result (drop timings and raw bytes) and judge the recorded requests *)
+let orc_net args lib impl =
+  let (nc, outs, log) = run_net args lib in
+  try
+    let r = ref impl in
+    let proj = ref [] in
+    List.iter (fun op ->
+        let (cls, r1) = take1 !r in
+        if cls = 2 then (proj := !proj @ [[2]]; let (_, r2) = take1 r1 in r := r2) else begin
+          let (_ms, r2) = take1 r1 in
+          if cls <> 0 then (proj := !proj @ [[cls]]; r := r2) else begin
+            let (v, r3) = take_jv r2 in
+            (match op with
+             | NFetch _ -> let (src, r4) = take_text r3 in proj := !proj @ [0 :: put_jv v @ put_text src]; r := r4
+             | NUnknown _ ->
+               let (has, r4) = take1 r3 in
+               if has = 0 then (proj := !proj @ [0 :: put_jv v @ [0]]; r := r4)
+               else let (id, r5) = take_text r4 in (proj := !proj @ [0 :: put_jv v @ (1 :: put_text id)]; r := r5))
+          end end) nc.ops;
+    let (nlog, r1) = take1 !r in
+    let rec reqs n r = if n = 0 then ([], r) else
+        let (u, r) = take_text r in let (raw, r) = take_text r in let (rest, r) = reqs (n - 1) r in ((u, raw) :: rest, r) in
+    let (ilog, r2) = reqs nlog r1 in
+    let (canary, _) = take1 r2 in
+    let results_equal = (!proj = outs) in
+    let log_equal = (List.map fst ilog = log) in
+    let shape_ok = List.for_all (fun (_, raw) ->
+        match parse_request raw with
+        | Some ((uri, host), acc) -> no_crlf_sp uri && no_crlf host
+        | None -> false) ilog in
+    let no_nil_doc = List.for_all (fun p -> p <> [3]) !proj in
+    let transparent = List.for_all2 (fun p c -> c = [-1] || p = c) !proj !cold_outs in
+    [("results_equal_model", results_equal); ("requests_equal_model", log_equal);
+     ("request_shape", shape_ok); ("no_plaintext_connection", canary = 0); ("no_nil_document", no_nil_doc); ("cache_transparent", transparent)]
+  with _ -> [("well_formed_result", false)]
+
 (* ---------------- dispatch ---------------- *)
 let handlers : (string, (int list -> int list -> int list) * (int list -> int list -> int list -> (string * bool) list)) Hashtbl.t = Hashtbl.create 64
 (* handlers that use library-oracle answers (the "<id> L ..." line of the implementation run) *)
@@ -559,6 +715,7 @@ let () =
   reg "unitable" op_unitable no_oracle;
   reg "hook" op_hook (orc_equal op_hook);
   regl "render" op_render orc_render;
+  regl "net" op_net orc_net;
   regl "objrender" op_objrender orc_objrender;
   reg "problem" op_problem orc_problem;
   reg "hex" op_hex (orc_equal op_hex);
@@ -609,7 +766,8 @@ let () =
            | None -> ())
         with
         | Bad_case m -> Buffer.add_string buf (id ^ " E " ^ m ^ "\n")
-        | Stack_overflow -> Buffer.add_string buf (id ^ " E stack_overflow\n"))
+        | Stack_overflow -> Buffer.add_string buf (id ^ " E stack_overflow\n")
+        | e -> Buffer.add_string buf (id ^ " E exception " ^ Printexc.to_string e ^ "\n"))
       | _ -> ()
     done with End_of_file -> ());
   close_in ic;
